@@ -407,6 +407,18 @@ pub fn execute_found(sc: &Scenario, acc: &mut Acc, mode: Mode) -> Result<Vec<Fou
             for (band, path, why) in dangling_references(&view) {
                 out.push(Violation::new(prop, "no_dangling_reference", why.clone(), format!("b{band:04} {path:?}: block {why}")));
             }
+            // a version that has a tail after the crash is complete by the format's rule, so it
+            // must hold everything: "tail written last"
+            if let Some(nb) = b.new_band {
+                if view.bands.get(&nb).map(|bv| bv.is_closed() && bv.head_ok()).unwrap_or(false) && crashed {
+                    let snap = cw.snap.clone();
+                    for mut v in expect_restore_equals(&mut cw, acc, prop, Some(nb), &snap, opts.owner, &format!("b{nb:04} has a tail after the crash")) {
+                        v.oracle = format!("band_with_tail_is_complete_{}", v.oracle);
+                        out.push(v);
+                    }
+                    acc.hit("crashed_band_has_tail");
+                }
+            }
             // (d) the interrupted version
             if let Some(nb) = b.new_band {
                 if let Some(bv) = view.bands.get(&nb) {
